@@ -101,3 +101,28 @@ func VC10Rebuild(tbl, op, mode int) {
 	probe := vU16("probe")
 	vAssert("mem", bus1.Peek(probe) == bus2.Peek(probe))
 }
+
+// native-only confirmation of a footprint finding: several CPUs, each on its
+// own memory, Step the same encoding concurrently; run under go test -race.
+// (The engine never executes this harness.)
+func VC10Concurrent(tbl, op int) {
+	done := make(chan bool)
+	for g := 0; g < 4; g++ {
+		go func(g int) {
+			bus := vNewBus("bus")
+			vPlace(bus, 0x4000, tbl, op)
+			cpu := &CPU{Memory: bus, IO: bus}
+			cpu.SP = 0x8000
+			for i := 0; i < 3000; i++ {
+				cpu.PC = 0x4000
+				cpu.AF.Hi, cpu.AF.Lo = uint8(i), uint8(i>>8)
+				cpu.Step()
+				bus.ResetTrace()
+			}
+			done <- true
+		}(g)
+	}
+	for g := 0; g < 4; g++ {
+		<-done
+	}
+}
